@@ -36,7 +36,7 @@ func init() {
 	}})
 	// L3: a stored pre-commit implies the anti-MEV extension is enabled at this height
 	globalImps = append(globalImps, &Implication{Name: "L3 stored pre-commit ⇒ anti-MEV enabled", Match: func(l Lit) []Lit {
-		if l.Pos && l.A.Op == "nn" && l.A.A.K == KIndex && l.A.A.Args[0].S == "ctx.PreCommitPayloads" {
+		if l.Pos && l.A.Op == "nn" && (l.A.A.K == KIndex || l.A.A.K == KElem) && l.A.A.Args[0].S == "ctx.PreCommitPayloads" {
 			return []Lit{{mkAtom("lt", tAMEVHeight, tZero), false}, {mkAtom("lt", tBlockIndex, tAMEVHeight), false}}
 		}
 		return nil
